@@ -1150,7 +1150,7 @@ def surface_deriv_cpts(dim, degree, kv, cpts, cpsize, rs, ss, deriv_order=0):
                 PKL[k][0][i][j - ss[0]] = PKu[k][i]
 
     # Control points of the V derivatives of every U-differentiated V-curve
-    for k in range(0, du):
+    for k in range(0, du + 1):
         for i in range(0, r - k + 1):
             dd = min(deriv_order - k, dv)
 
